@@ -33,7 +33,8 @@ def inert_patterns(rng):
     """patterns whose predicates accept simple events only (loops, optional, negated, strict, singleton, history-dependent)."""
     pool = ['eq:0', 'eq:1', 'eq:2', 'eq:3', 'ne:0', 'lt:2', 'gtmax', 'sizelt:4', 'grplt:g1:2', 'any']
     phens = []
-    for i in range(rng.choice((1, 1, 2))):
+    shared_names = rng.random() < 0.4
+    for i in range(rng.choice((1, 2, 2) if shared_names else (1, 1, 2))):
         pats = []
         for j in range(rng.choice((1, 1, 2))):
             k = rng.randint(2, 5)
@@ -43,7 +44,9 @@ def inert_patterns(rng):
             preds = [[S(rng.choice(pool)) for _ in range(rng.choice((1, 1, 2)))] for _ in range(k)]
             groups = [rng.choice(['g1', 'g2', f'g{x}']) for x in range(k)]
             halt = [S(rng.choice(['eq:9', 'gt:3']))] if rng.random() < 0.3 else []
-            pats.append(P(f'p{i}{j}', flags, preds, groups, (), halt, rng.random() < 0.25))
+            # pattern names may repeat ACROSS phenomena (a pattern is identified by phenomenon + name)
+            pname = f'p{j}' if shared_names else f'p{i}{j}'
+            pats.append(P(pname, flags, preds, groups, (), halt, rng.random() < 0.25))
         phens.append((f'ph{i}', pats))
     return phens
 
